@@ -16,6 +16,7 @@ pub fn dispatch(ctx: &Ctx) -> i32 {
         "C10" => frag::check(ctx, "C10"),
         "C13" => faults::check(ctx),
         "C14" => reframe::check(ctx),
+        "C07" => codeccfg::check(ctx),
         "C11" => frag::check(ctx, "C11"),
         "C06" => contract::check(ctx, contract::Which::C06),
         p => {
@@ -31,6 +32,7 @@ pub fn replay(prop: &str, case: &serde_json::Value) -> i32 {
         Some("contract") => contract::replay(prop, case),
         Some("E5") => frag::replay(prop, case),
         Some("E3") => faults::replay(case),
+        Some(e) if e.starts_with("E2-c07") => codeccfg::replay(case),
         Some("E2-annexb") | Some("E2-annexb-mux") | Some("E2-adts") => reframe::replay(case),
         e => {
             eprintln!("unknown engine {e:?}");
@@ -43,6 +45,7 @@ pub mod contract;
 pub mod frag;
 pub mod faults;
 pub mod reframe;
+pub mod codeccfg;
 
 use oracle::report::{Meta, Tally};
 
